@@ -248,11 +248,11 @@ GOLDEN = {
 }
 
 
-def golden_examples(k) -> list:
+def golden_examples(k, cases=None) -> list:
     from .gen_kernels import lean_value
 
     out = []
-    for args in GOLDEN.get(k.lean_name, []):
+    for args in (GOLDEN.get(k.lean_name, []) if cases is None else cases):
         res, vals = pyexpr.evaluate(k, *args)
         flat = []
         for p, a in zip(k.params, args):
@@ -297,11 +297,34 @@ def render(ks, errors) -> str:
     return "\n".join(lines) + "\n"
 
 
+def render_selftest() -> str:
+    """the glue test functions of translator/pyexpr_selftest.py rendered to Lean with the values the evaluator computes
+    (CPython vs evaluator is compared by the harness; evaluator vs Lean here, at build time)"""
+    from . import pyexpr_selftest
+
+    lines = [
+        "-- GENERATED by translator/gen_kernels_glue.py from translator/pyexpr_selftest.py. Do not edit.",
+        "import PandoraModel.Model.PyExpr",
+        "set_option linter.unusedVariables false",
+        "namespace Pandora.Generated.KernelsGlueSelfTest",
+        "open Pandora",
+        "",
+    ]
+    for name, k in pyexpr_selftest.glue_kernels().items():
+        text = pyexpr_selftest.GLUE_ACCEPTED[name][1].strip().replace("-/", "- /").replace("/-", "/ -")
+        lines += ["/-", text, "-/", pyexpr.render_lean(k, always_partial=False)]
+        lines += golden_examples(k, pyexpr_selftest.GLUE_ACCEPTED[name][2])
+        lines.append("")
+    lines.append("end Pandora.Generated.KernelsGlueSelfTest")
+    return "\n".join(lines) + "\n"
+
+
 def generate(*required):
     """write Generated/KernelsGlue.lean with every kernel that translates; raise Unsupported if one of `required`
     (all of them when none is named) does not"""
     ks, errors = kernels()
     write_if_changed("KernelsGlue.lean", render(ks, errors))
+    write_if_changed("KernelsGlueSelfTest.lean", render_selftest())
     bad = {n: m for n, m in errors.items() if not required or n in required}
     if bad:
         raise Unsupported("; ".join(f"{n}: {m}" for n, m in bad.items()))
